@@ -556,6 +556,80 @@ Proof.
   cbn [fst snd]. split; [apply Cg|apply Cr]; assumption.
 Qed.
 
+(* the same for a property of the whole accumulator, which may also use that the inserted pair passed can_add and was absent *)
+Lemma join_inv_gen : forall (P : nat -> nat -> Prop) (Q : mset * mset * bool -> Prop) ca rel1 rel2_rev (acc : mset * mset * bool),
+  (forall w x y, P w x -> P x y -> P w y) ->
+  mall P rel1 -> mall (flip2 P) rel2_rev ->
+  (forall tg tr ch w y, Q (tg, tr, ch) -> P w y -> ca w y = true -> mhas w y tg = false -> Q (mins w y tg, mins y w tr, true)) ->
+  Q acc -> Q (join ca rel1 rel2_rev acc).
+Proof.
+  intros P Q ca rel1 rel2_rev acc Ht H1 H2 C Hq. unfold join.
+  apply (fold_left_inv _ _ Q); [exact Hq|].
+  intros a1 [x xset] Hin Hq1. cbn [fst snd] in *.
+  destruct (aget x rel2_rev) as [xrev|] eqn:Hx; [|exact Hq1].
+  apply aget_in in Hx.
+  apply (fold_left_inv _ _ Q); [exact Hq1|].
+  intros a2 w Hw Hq2.
+  apply (fold_left_inv _ _ Q); [exact Hq2|].
+  intros [[tg3 tr3] ch3] y Hy Hq3. unfold join_inner.
+  destruct (ca w y) eqn:Hca; [|exact Hq3]. destruct (mhas w y tg3) eqn:Hmh; [exact Hq3|].
+  apply (C tg3 tr3 ch3 w y Hq3); try assumption. apply (Ht w x y); [apply (H2 x xrev w Hx Hw)|apply (H1 x xset y Hin Hy)].
+Qed.
+
+Lemma smem_sadd : forall b y s, smem b (sadd y s) = Nat.eqb b y || smem b s.
+Proof.
+  intros b y s. destruct (smem b (sadd y s)) eqn:H1.
+  - apply smem_in, in_sadd in H1. symmetry. apply orb_true_iff. destruct H1 as [->|H1]; [left; apply Nat.eqb_refl|right; apply smem_in; exact H1].
+  - apply smem_false in H1. symmetry. apply orb_false_iff. split.
+    + apply Nat.eqb_neq. intros ->. apply H1, in_sadd. now left.
+    + apply smem_false. intros H2. apply H1, in_sadd. now right.
+Qed.
+
+Lemma mhas_mins : forall a b w y m, mhas a b (mins w y m) = (Nat.eqb a w && Nat.eqb b y) || mhas a b m.
+Proof.
+  intros a b w y m. unfold mhas, mins. rewrite eget_aset. destruct (Nat.eqb_spec a w) as [->|Hne]; cbn [andb orb].
+  - apply smem_sadd.
+  - reflexivity.
+Qed.
+
+Lemma mhas_mmove_to : forall from to a b, mhas a b to = true -> mhas a b (mmove from to) = true.
+Proof.
+  induction from as [|[k s] from IH]; intros to a b H; [exact H|]. unfold mmove in *. cbn [fold_left fst snd]. apply IH.
+  unfold mhas in *. rewrite eget_aset. destruct (Nat.eqb_spec a k) as [->|Hne]; [|exact H].
+  apply smem_in. apply in_app_iff. left. apply smem_in. exact H.
+Qed.
+
+Lemma mhas_mmove_from : forall from to a b, mhas a b from = true -> mhas a b (mmove from to) = true.
+Proof.
+  induction from as [|[k s] from IH]; intros to a b H; [discriminate|]. unfold mmove in *. cbn [fold_left fst snd].
+  unfold mhas, eget in H. cbn [aget] in H. destruct (Nat.eqb_spec a k) as [->|Hne].
+  - apply mhas_mmove_to. unfold mhas. rewrite eget_aset_eq. apply smem_in, in_app_iff. right. apply smem_in. exact H.
+  - apply IH. exact H.
+Qed.
+
+Lemma filter_length_lt : forall A (f g : A -> bool) l x0,
+  (forall x, In x l -> g x = true -> f x = true) -> In x0 l -> f x0 = true -> g x0 = false ->
+  length (filter g l) < length (filter f l).
+Proof.
+  induction l as [|h l IH]; intros x0 Himp Hin Hf Hg; [destruct Hin|].
+  cbn [filter]. destruct Hin as [->|Hin].
+  - rewrite Hf, Hg. cbn [length].
+    assert (Hle : length (filter g l) <= length (filter f l)).
+    { clear - Himp. induction l as [|a l IH]; [cbn; lia|]. cbn [filter].
+      destruct (g a) eqn:Ga.
+      - rewrite (Himp a (or_intror (or_introl eq_refl)) Ga). cbn [length]. apply le_n_S. apply IH. intros x Hx; apply Himp. destruct Hx; [left; assumption|right; right; assumption].
+      - destruct (f a); cbn [length]; [apply le_S|]; apply IH; intros x Hx; apply Himp; (destruct Hx; [left; assumption|right; right; assumption]). }
+    lia.
+  - assert (IH' := IH x0 (fun x Hx => Himp x (or_intror Hx)) Hin Hf Hg).
+    destruct (g h) eqn:Gh.
+    + rewrite (Himp h (or_introl eq_refl) Gh). cbn [length]. lia.
+    + destruct (f h); cbn [length]; lia.
+Qed.
+
+(* the class pairs that are in neither delta_delta nor delta_total: strictly fewer after every round that changed something *)
+Definition unknown (n : nat) (dd dt : mset) : list (nat * nat) :=
+  filter (fun p => negb (mhas (fst p) (snd p) dd) && negb (mhas (fst p) (snd p) dt)) (list_prod (seq 0 n) (seq 0 n)).
+
 (* the maps of a Delta over the structure st: good class pairs under valid keys *)
 Definition dmap (Ins : list (nat * nat)) (st : truf) (m : mset) : Prop := mall (good Ins st) m /\ mkv (nsets st) m.
 Definition dmapr (Ins : list (nat * nat)) (st : truf) (m : mset) : Prop := mall (flip2 (good Ins st)) m /\ mkv (nsets st) m.
@@ -689,33 +763,69 @@ Section Protocol.
       cbn [foldM]. unfold add_nodes_step at 1. cbn [fst snd]. rewrite Ha1. cbn [bind]. rewrite Ha2. cbn [bind]. exact Hf.
   Qed.
 
-  (* ---- the inner loop: whatever it returns is made of good class pairs; it cannot fail except by running out of fuel *)
-  Lemma dloop_ok : forall Ins tot ncm fuel dd ddr dt dtr,
+  (* ---- the inner loop terminates within its fuel and returns good class pairs *)
+  Lemma mhas_good : forall Ins tot m a b, dmap Ins tot m -> mhas a b m = true -> a < nsets tot /\ b < nsets tot.
+  Proof.
+    intros Ins tot m a b [Hm _] H. unfold mhas in H. apply smem_in in H. destruct (in_eget _ _ _ H) as [s0 [Hs0 Hb]].
+    apply (good_lt _ _ _ _ (Hm a s0 b Hs0 Hb)).
+  Qed.
+
+  Lemma dloop_total : forall Ins tot ncm fuel dd ddr dt dtr,
     mall (good Ins tot) (t_conn tot) -> mall (flip2 (good Ins tot)) (t_rev tot) ->
     mall (good Ins tot) ncm ->
     dmap Ins tot dd -> dmapr Ins tot ddr -> dmap Ins tot dt -> dmapr Ins tot dtr ->
-    (exists dt' dtr', dloop fuel tot ncm dd ddr dt dtr = Ok (dt', dtr') /\ dmap Ins tot dt' /\ dmapr Ins tot dtr') \/
-    dloop fuel tot ncm dd ddr dt dtr = Err NoFuel.
+    length (unknown (nsets tot) dd dt) < fuel ->
+    exists dt' dtr', dloop fuel tot ncm dd ddr dt dtr = Ok (dt', dtr') /\ dmap Ins tot dt' /\ dmapr Ins tot dtr'.
   Proof.
-    intros Ins tot ncm. induction fuel as [|f IH]; intros dd ddr dt dtr Hc Hr Hn Hd Hdr Ht Htr; [right; reflexivity|].
+    intros Ins tot ncm. induction fuel as [|f IH]; intros dd ddr dt dtr Hc Hr Hn Hd Hdr Ht Htr Hfuel; [lia|].
     cbn [dloop].
     set (ca := fun x y => negb (mhas x y dd) && negb (mhas x y dt) && negb (mhas x y (t_conn tot))).
     assert (Htrans : forall w x y, good Ins tot w x -> good Ins tot x y -> good Ins tot w y) by (intros; eapply good_trans; eassumption).
-    pose proof (dmap_mins Ins tot) as Cg. pose proof (dmapr_mins Ins tot) as Cr.
+    set (Q := fun acc : mset * mset * bool =>
+                dmap Ins tot (fst (fst acc)) /\ dmapr Ins tot (snd (fst acc)) /\
+                (forall a b, mhas a b (fst (fst acc)) = true -> ca a b = true) /\
+                (snd acc = true -> exists a b, mhas a b (fst (fst acc)) = true)).
+    assert (CQ : forall tg tr ch w y, Q (tg, tr, ch) -> good Ins tot w y -> ca w y = true -> mhas w y tg = false ->
+                                      Q (mins w y tg, mins y w tr, true)).
+    { intros tg tr ch w y [Q1 [Q2 [Q3 Q4]]] Hg Hca _. unfold Q. cbn [fst snd] in *. split; [apply dmap_mins; assumption|].
+      split; [apply dmapr_mins; assumption|]. split.
+      - intros a b Hab. rewrite mhas_mins in Hab. apply orb_true_iff in Hab. destruct Hab as [Hab|Hab]; [|apply Q3; exact Hab].
+        apply andb_true_iff in Hab. destruct Hab as [Ha Hb]. apply Nat.eqb_eq in Ha, Hb. subst. exact Hca.
+      - intros _. exists w, y. rewrite mhas_mins, !Nat.eqb_refl. reflexivity. }
+    assert (Q0 : Q ([], [], false)).
+    { unfold Q. cbn [fst snd]. split; [apply dmap_nil|]. split; [apply dmapr_nil|]. split; [intros a b H; discriminate|discriminate]. }
     match goal with |- context [join ca dd (t_rev tot) ?a] =>
-      pose proof (join_inv (good Ins tot) (dmap Ins tot) (dmapr Ins tot) ca dd (t_rev tot) a Htrans (proj1 Hd) Hr Cg Cr (dmap_nil _ _) (dmapr_nil _ _)) as J1;
+      pose proof (join_inv_gen (good Ins tot) Q ca dd (t_rev tot) a Htrans (proj1 Hd) Hr CQ Q0) as J1;
       set (j1 := join ca dd (t_rev tot) a) in * end.
-    destruct J1 as [Jg1 Jr1].
-    pose proof (join_inv (good Ins tot) (dmap Ins tot) (dmapr Ins tot) ca (t_conn tot) ddr j1 Htrans Hc (proj1 Hdr) Cg Cr Jg1 Jr1) as J2.
-    set (j2 := join ca (t_conn tot) ddr j1) in *. destruct J2 as [Jg2 Jr2].
-    pose proof (join_inv (good Ins tot) (dmap Ins tot) (dmapr Ins tot) ca ncm ddr j2 Htrans Hn (proj1 Hdr) Cg Cr Jg2 Jr2) as J3.
-    set (j3 := join ca ncm ddr j2) in *. destruct J3 as [Jg3 Jr3].
-    clearbody j3. destruct j3 as [[g3 r3] c3]. cbn [fst snd] in Jg3, Jr3.
+    pose proof (join_inv_gen (good Ins tot) Q ca (t_conn tot) ddr j1 Htrans Hc (proj1 Hdr) CQ J1) as J2.
+    set (j2 := join ca (t_conn tot) ddr j1) in *.
+    pose proof (join_inv_gen (good Ins tot) Q ca ncm ddr j2 Htrans Hn (proj1 Hdr) CQ J2) as J3.
+    set (j3 := join ca ncm ddr j2) in *.
+    clearbody j3. destruct j3 as [[g3 r3] c3]. destruct J3 as [Jg3 [Jr3 [Jca Jch]]]. cbn [fst snd] in Jg3, Jr3, Jca, Jch.
     assert (Hm1 : dmap Ins tot (mmove dd dt)) by (apply dmap_mmove; assumption).
     assert (Hm2 : dmapr Ins tot (mmove ddr dtr)) by (apply dmapr_mmove; assumption).
     destruct c3.
-    - apply IH; assumption.
-    - left. eexists _, _. split; [reflexivity|split; assumption].
+    - destruct (Jch eq_refl) as [w [y Hwy]]. pose proof (Jca w y Hwy) as Hca.
+      apply IH; try assumption.
+      assert (Hlt : length (unknown (nsets tot) g3 (mmove dd dt)) < length (unknown (nsets tot) dd dt)).
+      { unfold unknown. apply (filter_length_lt _ _ _ _ (w, y)).
+        - intros [a b] _ Hg. cbn [fst snd] in *. apply andb_true_iff in Hg. destruct Hg as [_ Hg2].
+          apply negb_true_iff in Hg2. apply andb_true_iff. split; apply negb_true_iff.
+          + destruct (mhas a b dd) eqn:E; [|reflexivity]. rewrite (mhas_mmove_from dd dt a b E) in Hg2. discriminate.
+          + destruct (mhas a b dt) eqn:E; [|reflexivity]. rewrite (mhas_mmove_to dd dt a b E) in Hg2. discriminate.
+        - destruct (mhas_good Ins tot g3 w y Jg3 Hwy) as [Hw Hy]. apply in_prod; apply in_seq; lia.
+        - cbn [fst snd]. unfold ca in Hca. apply andb_true_iff in Hca. destruct Hca as [Hca _]. exact Hca.
+        - cbn [fst snd]. rewrite Hwy. reflexivity. }
+      lia.
+    - eexists _, _. split; [reflexivity|split; assumption].
+  Qed.
+
+  Lemma unknown_bound : forall n dd dt, length (unknown n dd dt) <= n * n.
+  Proof.
+    intros n dd dt. unfold unknown.
+    assert (Hle : forall A (f : A -> bool) l, length (filter f l) <= length l).
+    { intros A f l. induction l as [|a l IHl]; cbn; [lia|]. destruct (f a); cbn; lia. }
+    etransitivity; [apply Hle|]. rewrite prod_length, seq_length. lia.
   Qed.
 
   (* ---- the merge *)
@@ -753,14 +863,13 @@ Section Protocol.
 
   Lemma merge_body_ok : forall Ins nrel prec trel Et,
     (forall p, In p nrel -> In p Ins) -> (forall p, In p prec -> In p Ins) -> I Et trel -> psub Et Ins ->
-    (exists n' d' t', merge_body nrel prec trel = Ok (n', d', t') /\ bin_ok Ins n' d' t') \/
-    merge_body nrel prec trel = Err NoFuel.
+    exists n' d' t', merge_body nrel prec trel = Ok (n', d', t') /\ bin_ok Ins n' d' t'.
   Proof.
     intros Ins nrel prec trel Et Hn Hp HE Hs. unfold merge_body.
     assert (Hpair : forall l, (forall p, In p l -> In p Ins) -> psub l Ins).
     { intros l Hl x y Hxy. apply rtc_e. apply Hl; exact Hxy. }
     destruct (tr_is_empty trel && isnil prec).
-    - destruct (I_run nrel [] tr_empty (I_empty HI)) as [nd [Hr Hnd]]. rewrite Hr. cbn [bind]. left.
+    - destruct (I_run nrel [] tr_empty (I_empty HI)) as [nd [Hr Hnd]]. rewrite Hr. cbn [bind].
       eexists _, _, _. split; [reflexivity|]. unfold bin_ok. split; [left; exists []; split; [reflexivity|intros p []]|].
       split; [exists ([] ++ nrel); split; [exact Hnd|apply Hpair; exact Hn]|].
       split; [exists []; split; [apply (I_empty HI)|intros x y []]|].
@@ -773,8 +882,10 @@ Section Protocol.
         replace (foldM add_nodes_step nrel a) with (Ok (t2, ncm, ncrm) : res (truf * mset * mset)) by (symmetry; exact Hf) end.
       cbn [bind].
       destruct (conn_good Ins E' t2 HE2 Hs2) as [Hcg Hrg].
-      destruct (dloop_ok Ins t2 ncm (loop_fuel t2) ncm ncrm [] [] Hcg Hrg (proj1 Hm) Hm Hmr (dmap_nil _ _) (dmapr_nil _ _))
-        as [[dt [dtr [Hd [Hdt Hdtr]]]]|Hd]; rewrite Hd; cbn [bind]; [left|right; reflexivity].
+      assert (Hfuel : length (unknown (nsets t2) ncm []) < loop_fuel t2).
+      { pose proof (unknown_bound (nsets t2) ncm []) as Hb. unfold loop_fuel. fold (nsets t2). lia. }
+      destruct (dloop_total Ins t2 ncm (loop_fuel t2) ncm ncrm [] [] Hcg Hrg (proj1 Hm) Hm Hmr (dmap_nil _ _) (dmapr_nil _ _) Hfuel)
+        as [dt [dtr [Hd [Hdt Hdtr]]]]. rewrite Hd. cbn [bind].
       eexists _, _, _. split; [reflexivity|]. unfold bin_ok. split; [left; exists []; split; [reflexivity|intros p []]|].
       split.
       { cbn [ver_ok d_total d_conn d_rev d_prec]. split; [exists E'; split; assumption|]. split; [exact Hdt|]. split; [exact Hdtr|exact Hn]. }
@@ -782,7 +893,7 @@ Section Protocol.
   Qed.
 
   Lemma merge_ok : forall Ins n d t, bin_ok Ins n d t ->
-    (exists n' d' t', c_merge n d t = Ok (n', d', t') /\ bin_ok Ins n' d' t') \/ c_merge n d t = Err NoFuel.
+    exists n' d' t', c_merge n d t = Ok (n', d', t') /\ bin_ok Ins n' d' t'.
   Proof.
     intros Ins n d t [Hn [Hd [Ht [[tt Htt] Hsh]]]]. subst t.
     destruct (unwrap_new_ok _ _ Hn) as [nrel [Hun Hnrel]].
@@ -934,14 +1045,13 @@ Section Protocol.
   Qed.
 
   Lemma step_ok : forall dom Ins st o, st_ok Ins st ->
-    (exists st' it, step (bin_prov dom) st o = Ok (st', it) /\ st_ok (Ins ++ op_pair o) st') \/
-    step (bin_prov dom) st o = Err NoFuel.
+    exists st' it, step (bin_prov dom) st o = Ok (st', it) /\ st_ok (Ins ++ op_pair o) st'.
   Proof.
     intros dom Ins st o Hst. pose proof Hst as [Hb [ts [Hs Hvs]]].
     assert (Hinc : forall l p, In p Ins -> In p (Ins ++ l)) by (intros l p Hp; apply in_app_iff; now left).
     destruct o as [| | |k x y|k x y]; cbn [op_pair]; try rewrite app_nil_r.
     - (* stratum start *)
-      left. cbn [step bin_prov p_init p_default c_init].
+      cbn [step bin_prov p_init p_default c_init].
       set (st1 := mkPS c_default (CNew []) (s_stored st) c_default).
       assert (H1 : st_ok Ins st1).
       { split.
@@ -951,7 +1061,7 @@ Section Protocol.
         - exists tr_empty. split; [reflexivity|]. exists []. split; [apply (I_empty HI)|intros a b []]. }
       destruct (read_both_ok dom Ins st1 H1) as [it Hit]. fold st1. rewrite Hit. cbn [bind]. eexists _, _. split; [reflexivity|exact H1].
     - (* stratum end *)
-      left. cbn [step bin_prov p_default]. eexists _, _. split; [reflexivity|].
+      cbn [step bin_prov p_default]. eexists _, _. split; [reflexivity|].
       destruct Hb as [Hn [Hd [Ht [[tt Htt] Hsh]]]]. split.
       + cbn [s_new s_delta s_total]. split; [exact Hn|]. split; [exact Hd|].
         split; [exists []; split; [apply (I_empty HI)|intros a b []]|]. split; [eexists; reflexivity|].
@@ -959,18 +1069,18 @@ Section Protocol.
       + cbn [s_stored]. exists tt. rewrite Htt in Ht. split; [exact Htt|exact Ht].
     - (* merge *)
       cbn [step bin_prov p_merge].
-      destruct (merge_ok Ins _ _ _ Hb) as [[n' [d' [t' [Hm Hb']]]]|Hm]; rewrite Hm; cbn [bind]; [|right; reflexivity].
+      destruct (merge_ok Ins _ _ _ Hb) as [n' [d' [t' [Hm Hb']]]]; rewrite Hm; cbn [bind].
       set (st1 := mkPS (s_stored st) n' d' t').
       assert (H1 : st_ok Ins st1) by (split; [exact Hb'|exists ts; split; assumption]).
-      destruct (read_both_ok dom Ins st1 H1) as [it Hit]. fold st1. rewrite Hit. cbn [bind]. left. eexists _, _. split; [reflexivity|exact H1].
+      destruct (read_both_ok dom Ins st1 H1) as [it Hit]. fold st1. rewrite Hit. cbn [bind]. eexists _, _. split; [reflexivity|exact H1].
     - (* insert *)
-      left. cbn [step bin_prov p_insert]. destruct Hb as [Hn [Hd [Ht [Htt Hsh]]]].
+      cbn [step bin_prov p_insert]. destruct Hb as [Hn [Hd [Ht [Htt Hsh]]]].
       destruct (insert_ok Ins _ x y Hn) as [n' [b [Hi Hn']]]. rewrite Hi. cbn [bind]. eexists _, _. split; [reflexivity|].
       split; [|exists ts; split; [exact Hs|eapply (ver_ok_mono Ins _ (CTotal ts)); [exact Hvs|apply Hinc]]].
       cbn [s_new s_delta s_total]. split; [exact Hn'|]. split; [eapply ver_ok_mono; [exact Hd|apply Hinc]|].
       split; [eapply ver_ok_mono; [exact Ht|apply Hinc]|]. split; assumption.
     - (* head update *)
-      left. cbn [step bin_prov p_contains p_insert].
+      cbn [step bin_prov p_contains p_insert].
       pose proof (delta_readable _ _ _ _ Hb) as Hnd. destruct Hb as [Hn [Hd [Ht [[tt Htt] Hsh]]]].
       assert (Hmono : st_ok (Ins ++ [(x, y)]) st) by (eapply st_ok_mono; [exact Hst|apply Hinc]).
       rewrite Htt in Ht. destruct (total_sound _ _ Ht) as [Hc _]. destruct (Hc x y) as [bt [Hbt _]]. rewrite Htt, Hbt. cbn [bind].
@@ -985,13 +1095,12 @@ Section Protocol.
   Qed.
 
   Lemma run_ok : forall dom ops Ins st, st_ok Ins st ->
-    (exists st', run_state (bin_prov dom) st ops = Ok st' /\ st_ok (Ins ++ args ops) st') \/
-    run_state (bin_prov dom) st ops = Err NoFuel.
+    exists st', run_state (bin_prov dom) st ops = Ok st' /\ st_ok (Ins ++ args ops) st'.
   Proof.
     intros dom. induction ops as [|o ops IH]; intros Ins st Hst.
-    - left. exists st. split; [reflexivity|]. cbn. rewrite app_nil_r. exact Hst.
-    - cbn [run_state]. destruct (step_ok dom Ins st o Hst) as [[st1 [it [Hs H1]]]|Hs]; rewrite Hs; cbn [bind]; [|right; reflexivity].
-      destruct (IH _ _ H1) as [[st' [Hr H']]|Hr]; [left|right; exact Hr].
+    - exists st. split; [reflexivity|]. cbn. rewrite app_nil_r. exact Hst.
+    - cbn [run_state]. destruct (step_ok dom Ins st o Hst) as [st1 [it [Hs H1]]]; rewrite Hs; cbn [bind].
+      destruct (IH _ _ H1) as [st' [Hr H']].
       exists st'. split; [exact Hr|]. cbn [args flat_map]. rewrite app_assoc. exact H'.
   Qed.
 
@@ -1004,11 +1113,10 @@ Section Protocol.
   Qed.
 
   Theorem bin_protocol_sound : forall dom ops,
-    (exists st, run_state (bin_prov dom) (ps_init (bin_prov dom)) ops = Ok st /\
-       sound_version (args ops) (s_delta st) /\ sound_version (args ops) (s_total st) /\ sound_version (args ops) (s_stored st)) \/
-    run_state (bin_prov dom) (ps_init (bin_prov dom)) ops = Err NoFuel.
+    exists st, run_state (bin_prov dom) (ps_init (bin_prov dom)) ops = Ok st /\
+       sound_version (args ops) (s_delta st) /\ sound_version (args ops) (s_total st) /\ sound_version (args ops) (s_stored st).
   Proof.
-    intros dom ops. destruct (run_ok dom ops [] _ (init_ok dom)) as [[st [Hr Hst]]|Hr]; [left|right; exact Hr].
+    intros dom ops. destruct (run_ok dom ops [] _ (init_ok dom)) as [st [Hr Hst]].
     exists st. split; [exact Hr|]. cbn [app] in Hst. pose proof Hst as [Hb [ts [Hs Hvs]]].
     pose proof (delta_readable _ _ _ _ Hb) as Hnd. destruct Hb as [_ [Hd [Ht [[tt Htt] _]]]].
     split; [apply readable_sound; assumption|]. split.
@@ -1046,15 +1154,14 @@ Qed.
 (* Theorem (binary form, every sequence of operations, relative to the interface of the union-find structure):
    - whatever any method of the delta, total or stored version serves lies in the reflexive transitive closure of the
      pairs handed to insert so far (soundness, for every history);
-   - no operation of the provider fails (no assert, no unwrap, no index out of bounds, no "unexpected shape" panic), the only
-     error the model can report being the exhaustion of the fuel of the inner semi-naive loop. *)
-Theorem bin_never_panics_partial : forall I, truf_iface I -> forall dom ops n e,
-  In (RPanic n e) (run_bin dom ops) -> e = NoFuel.
+   - no operation of the provider fails: no assert, no unwrap, no index out of bounds, no "unexpected shape" panic, and the inner
+     semi-naive loop of the merge ends within (number of classes)^2 + 2 rounds (every round that changes something removes a class
+     pair from the finite set of pairs that are in neither delta_delta nor delta_total). *)
+Theorem bin_never_panics_partial : forall I, truf_iface I -> forall dom ops n e, ~ In (RPanic n e) (run_bin dom ops).
 Proof.
   intros I HI dom ops n e Hin. unfold run_bin in Hin.
   destruct (run_hist_panics _ _ _ _ _ _ _ _ Hin) as [[]|Hr].
-  (* every prefix runs: the failing step is the first one of a suffix; use the theorem on the whole sequence *)
-  destruct (bin_protocol_sound I HI dom ops) as [[st [Hok _]]|Hnf]; congruence.
+  destruct (bin_protocol_sound I HI dom ops) as [st [Hok _]]. congruence.
 Qed.
 
 (* ---- the interface is what C18 proves for its invariant, except for add_node on a new element *)
